@@ -7,7 +7,7 @@ from hv import Case
 
 SPEC = {
     "lean_modules": ["Honeycomb.Props.C18"],
-    "required_theorems": ["C18_add_fresh", "C18_insert_fresh", "C18_remove_refuses_iff", "C18_D10_reused_slot_keeps_stale_value"],
+    "required_theorems": ["C18_add_fresh", "C18_insert_fresh", "C18_remove_refuses_iff", "C18_D10_reused_slot_keeps_stale_value", "C18_orbit_excludes_removed"],
     "trusted_base": [
         "Lean 4.33 kernel; axioms propext, Classical.choice, Quot.sound only",
         "hand-written model (Model/Ops.lean: addFreeDarts, insertFreeDart, removeFreeDart) tied to /repo by the differential run",
@@ -23,8 +23,8 @@ SPEC = {
     "not_proved": [
         "'a newly obtained dart has no coordinates or attribute value' is FALSE on the current code for reused slots (finding D10): proved "
         "negation C18_D10_reused_slot_keeps_stale_value + partial theorem C18_insert_blank_partial",
-        "'removed darts are not reported by any orbit of a remaining dart': follows from C03's reachability theorem + C01_unused_is_nobodys_image; "
-        "stated there, checked here by the oracle",
+        "'removed darts are not reported by any orbit of a remaining dart' is proved for 2-maps (C18_orbit_excludes_removed, from C03 + "
+        "C01_unused_is_nobodys_image); for 3-maps it is checked by the oracle only",
     ],
 }
 
